@@ -162,15 +162,32 @@ def r1(ctx, R):
     cr = q.calls(nr, name="on_create_ref")
     lps = [n for n in walk_local(nr.node) if isinstance(n, ast.For) and call_name(n.iter) == "_iter_name_in_subs"]
     rs = [r_ for r_ in q.raises(nr, "ValueError") if lps and any(r_ is x for x in ast.walk(lps[0]))]
-    if not lps or len(rs) < 2 or not cr:
+    if not lps or not rs or not cr:
         R.bad(nr, nr.node, "new_ref does not test every sub space for a clashing name", stmt="for other in _iter_name_in_subs")
     else:
         for r_ in rs:
             if any(q.path_between(nr, c, r_) for c in cr):
                 R.bad(nr, r_, "reference is created before the clash test")
-        g = [q.guards_of(nr, r_) for r_ in rs]
-        if not any(("isinstance(other, ReferenceImpl)", "F") in x for x in g):
+        v_ = norm(lps[0].target)
+        IS_REF, IS_GLOBAL = "isinstance(%s, ReferenceImpl)" % v_, "%s in self.model.global_refs.values()" % v_
+
+        def refused(is_ref, is_global):
+            def oc(e):
+                t = norm(e)
+                if t == IS_REF:
+                    return "T" if is_ref else "F"
+                if t in (IS_GLOBAL, IS_GLOBAL.replace(" in ", " not in ")):
+                    pos = " not in " not in t
+                    return "T" if (is_global == pos) else "F"
+                return None
+            reached = q.run_abstract(nr, oc)
+            return any(i in reached for r_ in rs for i in q.nodes_for(nr, r_))
+        if not refused(False, False):
             R.bad(nr, rs[0], "a cells or space of that name in a sub is not refused")
+        if not refused(True, False):
+            R.bad(nr, rs[0], "a space-level reference of that name in a sub is not refused")
+        if refused(True, True):
+            R.bad(nr, rs[0], "a model-level reference of that name is refused (shadowing it is legal)")
         if any(isinstance(x, ast.Break) for x in ast.walk(lps[0])):
             R.bad(nr, lps[0], "the clash test stops at the first sub space")
         itc = lps[0].iter
